@@ -19,9 +19,10 @@ pub mod h0s {
       macro m0($p0: ident, $p1: ident, $p2: expr) { (r1($p1, v0), r6(0) | r1($p1, v0), r4(v1, ?Some(v2))), r0(v3, $p0) }
       macro m1($p0: ident, $p1: ident, $p2: expr) { (((r4($p1, v0), if ($p0.clone() <= 3), r4(0, Some($p2)) | r1($p1, v0), if ($p2 != $p1.clone()), let v1 = std::cmp::min(($p2 + $p0.clone()), 6)), for v2 in [1, 3]) | r6($p1) | r5(v3, v4, $p1), r2(v5)), r4(v6, ?Some(v7)), m0!(v6, $p0, ($p1.clone() + v7.clone())), if (v6.clone() == 1) }
       macro m2($p0: expr, $p1: ident) { r7(0) }
-      r6((v0.clone() + 1)) <-- r3(v0, v0, 2), m0!(v0, v1, std::cmp::max(v0.clone(), 3)), m0!(v0, v0, std::cmp::min(v0.clone(), 1)), if (v0.clone() < 5);
-      r6(0) <-- r5(v0, v1, _) if (v1.clone() == 1), m1!(v1, v0, v1.clone() + v1.clone());
-      r4(v0, v1) <-- r1(v0, v1);
+      r5(v2, v2, v1) <-- r7(v0), m0!(v0, v1, std::cmp::max(v0.clone(), 2)), m0!(v1, v2, v1.clone() + 0);
+      r5(2, v0, v2) <-- r5(v0, std::cmp::min(v0.clone(), 2), std::cmp::max(v0.clone(), 2)) if (v0.clone() <= 2), m0!(v0, v1, v0.clone() + 2), r0(v2, 1);
+      r7(v0) <-- r5(v0, std::cmp::min(v0.clone(), 4), v1), m1!(v0, v1, v1.clone() + v1.clone()), r5(_, (v0.clone() + 2), v2);
+      r4(0, Some(v0.clone())) <-- r2(v0) if (v0.clone() == 4);
    }
    pub struct Inst { p: Prog, pool: Option<ascent::rayon::ThreadPool> }
    pub fn make(pool: Option<usize>) -> Box<dyn Driver> {
@@ -73,11 +74,10 @@ pub mod h4s {
       macro m1($p0: ident, $p1: ident) { r4($p1, $p0), r6(v0, Some($p1.clone())) }
       macro m2($p0: ident, $p1: expr) { r2($p0), if ($p0.clone() != $p0.clone()) }
       macro m3($p0: expr) { r8($p0, $p0), r8(0, 3) }
-      r6((v1.clone() + 1), None::<i64>) <-- r5(v0), (m0!(v1) | r8(v0, v1)), if (v1.clone() < 5);
-      r7(v1) <-- r1(_, v0), m1!(v1, v2);
-      m3!(std::cmp::min(std::cmp::max(v0.clone(), 3), 6)), r8(v0, v0) <-- r7(v0), m1!(v0, v1);
-      m3!(std::cmp::min(std::cmp::max(v0.clone(), 1), 6)), r6((v0.clone() + 1), Some(3)) <-- m0!(v0), if (v0.clone() < 5);
-      m3!(std::cmp::min((v3.clone() + v4.clone()), 6)), r7(3) <-- r4(v0, v1), m1!(v2, v3), m1!(v3, v4);
+      m3!(std::cmp::min((v1.clone() + 2), 6)), r8(v0, v0) <-- r3(0, _, v0), m1!(v1, v2);
+      m3!(std::cmp::min((v0.clone() + 1), 6)) <-- r7(v0) if (v0.clone() <= 2), m2!(v1, std::cmp::max(v0.clone(), 0)), m2!(v2, std::cmp::max(v1.clone(), 1));
+      m3!(std::cmp::min((v2.clone() + v1.clone()), 6)), r8(v0, v1) <-- r5(v0), m1!(v1, v2), m1!(v1, v2);
+      r7(v0) <-- r8(v0, 3), (m1!(v1, v3) | r8(v1, v1) if (v1.clone() == v1.clone())), m1!(v1, v4);
       r5((v0.clone() + 1)) <-- r4(v0, (v0.clone() + 2)) if (v0.clone() == 5), if (v0.clone() < 5);
       m3!(3);
    }
@@ -123,24 +123,20 @@ pub mod h8s {
       relation r1(i64, Option<i64>);
       relation r2(i64);
       relation r3(i64, i64, i64);
-      relation r4(i64);
-      relation r5(i64, Option<i64>, i64);
+      relation r4(i64, i64);
+      relation r5(i64);
       relation r6(i64, i64);
-      relation r7(i64, Option<i64>);
-      macro m0($p0: ident, $p1: ident) { r3(v0, $p0, $p1), r3(v1, $p0, v0), if (v0.clone() == 0) }
-      macro m1($p0: ident, $p1: expr) { r0($p0, $p1), !r1($p0.clone(), Some($p1)) }
-      macro m2($p0: ident, $p1: ident, $p2: expr) { (r5(v0, _, $p1), if ($p1.clone() != 5), let v1 = std::cmp::min(std::cmp::max(v0.clone(), 2), 6), !r1(std::cmp::max(v1.clone(), 0), Some($p2)) | r5($p1, ?Some(v2), v0) | r1($p1, ?Some(v0)), if ($p2 != v0.clone())) }
-      macro m3($p0: ident) { (r1($p0, _), r0(v0, $p0) | r3($p0, std::cmp::min($p0.clone(), 2), $p0), !r0(0, _)), r2(v1), m2!($p0, $p0, std::cmp::max($p0.clone(), 0)) }
-      macro m4($p0: expr) { r6($p0, $p0) }
-      macro m5($p0: expr, $p1: ident) { r5($p1, Some($p0), 0), r5($p0, Some(1), 2), m4!(($p0 + 0)) }
-      r7(1, v1) <-- r7(v0, v1) if (v0.clone() <= 5) let v2 = std::cmp::min((v0.clone() + 0), 6), m1!(v0, std::cmp::min(v0.clone(), 3));
-      m4!(std::cmp::min(std::cmp::min(v2.clone(), 3), 6)), r7(v2, Some(v1.clone())) <-- r0(v0, v1), m0!(v0, v0), m0!(v0, v2);
-      m5!(std::cmp::min(std::cmp::max(v1.clone(), 1), 6), v0) <-- r0(v0, std::cmp::min(v0.clone(), 3)) if (v0.clone() <= 3), m0!(v1, v0);
-      r7(v0, Some(3)) <-- r6(v0, v0) if (v0.clone() != 5), (m0!(v1, v3) | r1(v1, v4));
-      m4!(std::cmp::min(std::cmp::min(v2.clone(), 3), 6)), r5((v1.clone() + 1), Some(0), 2) <-- r1(2, ?Some(v0)), m2!(v0, v1, std::cmp::min(v0.clone(), 2)), m2!(v0, v2, v0.clone() + v0.clone()), if (v1.clone() < 5);
-      r7(v0, Some(v1.clone())) <-- r0(1, v0) if (v0.clone() != 0) let v1 = std::cmp::min(std::cmp::min(v0.clone(), 1), 6), m3!(v1);
-      r4(v0) <-- r1(v0, None::<i64>);
-      m4!(2);
+      relation r7(i64);
+      relation r8(i64, i64, i64);
+      macro m0($p0: ident, $p1: expr) { r5($p0) }
+      macro m1($p0: ident) { r4($p0, v0), m0!(v0, std::cmp::max($p0.clone(), 0)) }
+      macro m2($p0: ident, $p1: ident) { r4($p1, $p0), if ($p1.clone() < 1), r3(v0, 0, (v0.clone() + $p0.clone())), m1!(v1) }
+      macro m3($p0: expr, $p1: ident) { r6($p0, $p1), r6($p1, $p0) }
+      macro m4($p0: ident, $p1: expr) { r6($p1, 1), m3!(($p1 + 0), $p0) }
+      m3!(std::cmp::min(std::cmp::max(v2.clone(), 2), 6), v0) <-- r8(v0, v0, v1) if (v1.clone() == 3) let v2 = std::cmp::min(std::cmp::min(v1.clone(), 1), 6), m1!(v0);
+      r7(v0) <-- r5(v0), m0!(v1, std::cmp::max(v0.clone(), 0)), m0!(v1, std::cmp::max(v1.clone(), 3));
+      m3!(std::cmp::min(std::cmp::max(v3.clone(), 3), 6), v0), r6(2, v1) <-- r4(v0, v1) if (v1.clone() != 5) let v2 = std::cmp::min((v0.clone() + v1.clone()), 6), (m2!(v3, v4) | r0(v3, v5));
+      r5(v1) <-- r3(3, v0, v1) if (v1.clone() != v0.clone()) let v2 = std::cmp::min(std::cmp::min(v0.clone(), 3), 6);
    }
    pub struct Inst { p: Prog, pool: Option<ascent::rayon::ThreadPool> }
    pub fn make(pool: Option<usize>) -> Box<dyn Driver> {
@@ -155,9 +151,68 @@ pub mod h8s {
          1 => { let v: Vec<(i64,Option<i64>,)> = parse_rows(rows)?; if append { self.p.r1.extend(v) } else { self.p.r1 = v } },
          2 => { let v: Vec<(i64,)> = parse_rows(rows)?; if append { self.p.r2.extend(v) } else { self.p.r2 = v } },
          3 => { let v: Vec<(i64,i64,i64,)> = parse_rows(rows)?; if append { self.p.r3.extend(v) } else { self.p.r3 = v } },
-         4 => { let v: Vec<(i64,)> = parse_rows(rows)?; if append { self.p.r4.extend(v) } else { self.p.r4 = v } },
-         5 => { let v: Vec<(i64,Option<i64>,i64,)> = parse_rows(rows)?; if append { self.p.r5.extend(v) } else { self.p.r5 = v } },
+         4 => { let v: Vec<(i64,i64,)> = parse_rows(rows)?; if append { self.p.r4.extend(v) } else { self.p.r4 = v } },
+         5 => { let v: Vec<(i64,)> = parse_rows(rows)?; if append { self.p.r5.extend(v) } else { self.p.r5 = v } },
          6 => { let v: Vec<(i64,i64,)> = parse_rows(rows)?; if append { self.p.r6.extend(v) } else { self.p.r6 = v } },
+         7 => { let v: Vec<(i64,)> = parse_rows(rows)?; if append { self.p.r7.extend(v) } else { self.p.r7 = v } },
+         8 => { let v: Vec<(i64,i64,i64,)> = parse_rows(rows)?; if append { self.p.r8.extend(v) } else { self.p.r8 = v } },
+            _ => return None,
+         }
+         Some(())
+      }
+      fn run(&mut self) { match &self.pool { Some(pl) => { let p = &mut self.p; pl.install(|| p.run()) }, None => self.p.run() } }
+      fn run_here(&mut self) { self.p.run() }
+      fn run_timeout(&mut self, k: usize) -> Option<bool> { let _ = k; None }
+      fn dump(&self) -> String { vec![dump_rel(0, self.p.r0.iter().map(Row::render).collect()), dump_rel(1, self.p.r1.iter().map(Row::render).collect()), dump_rel(2, self.p.r2.iter().map(Row::render).collect()), dump_rel(3, self.p.r3.iter().map(Row::render).collect()), dump_rel(4, self.p.r4.iter().map(Row::render).collect()), dump_rel(5, self.p.r5.iter().map(Row::render).collect()), dump_rel(6, self.p.r6.iter().map(Row::render).collect()), dump_rel(7, self.p.r7.iter().map(Row::render).collect()), dump_rel(8, self.p.r8.iter().map(Row::render).collect())].join(" | ") }
+      fn iters(&self) -> String { format!("iters {}", self.p.scc_iters.iter().map(|x| x.to_string()).collect::<Vec<_>>().join(" ")) }
+   }
+}
+
+#[allow(unused, non_snake_case, clippy::all)]
+pub mod h12s {
+   use ascent::*;
+   use ascent::aggregators::*;
+   use ascent::lattice::{Dual, set::Set};
+   use crate::common::*;
+   ascent! {
+      pub struct Prog;
+      relation r0(i64, i64);
+      relation r1(i64, Option<i64>);
+      relation r2(i64);
+      relation r3(i64, i64, i64);
+      relation r4(i64, i64);
+      relation r5(i64, i64);
+      relation r6(i64, Option<i64>);
+      relation r7(i64, Option<i64>);
+      macro m0($p0: ident) { r1($p0, None::<i64>), r2(std::cmp::max($p0.clone(), 0)), if ($p0.clone() == 4) }
+      macro m1($p0: ident, $p1: ident) { r5($p0, $p1), r4($p0, _), m0!(v0), if ($p1.clone() <= v0.clone()) }
+      macro m2($p0: ident) { r3(v0, v0, $p0), r5(2, v1), m0!(v2) }
+      macro m3($p0: expr) { r7($p0, Some($p0)) }
+      m3!(std::cmp::min((v3.clone() + 0), 6)) <-- r3(v0, v1, v0), (m1!(v2, v0) | r6(v2, _)), m1!(v0, v3);
+      m3!(std::cmp::min(std::cmp::min(v0.clone(), 2), 6)) <-- r4(v0, std::cmp::min(v0.clone(), 2)), m0!(v1);
+      r7(v1, None::<i64>) <-- r0(v0, std::cmp::max(v0.clone(), 2)), (m1!(v1, v3) | r4(v0, v1));
+      r6(3, Some(v0.clone())) <-- r3(v0, v1, 1), m0!(v1);
+      m3!(std::cmp::min(std::cmp::max(v1.clone(), 0), 6)) <-- r4(3, _), m1!(v0, v1), m1!(v1, v2);
+      r6(v0, Some(v0.clone())) <-- m0!(v0);
+      r5(v0, v0) <-- r4(v0, 0);
+      m3!(3);
+   }
+   pub struct Inst { p: Prog, pool: Option<ascent::rayon::ThreadPool> }
+   pub fn make(pool: Option<usize>) -> Box<dyn Driver> {
+      let pool = pool.map(|n| ascent::rayon::ThreadPoolBuilder::new().num_threads(n).build().unwrap());
+      let p = match &pool { Some(pl) => pl.install(|| Default::default()), None => Default::default() };
+      Box::new(Inst { p, pool })
+   }
+   impl Driver for Inst {
+      fn load(&mut self, rel: usize, rows: &[Sexp], append: bool) -> Option<()> {
+         match rel {
+         0 => { let v: Vec<(i64,i64,)> = parse_rows(rows)?; if append { self.p.r0.extend(v) } else { self.p.r0 = v } },
+         1 => { let v: Vec<(i64,Option<i64>,)> = parse_rows(rows)?; if append { self.p.r1.extend(v) } else { self.p.r1 = v } },
+         2 => { let v: Vec<(i64,)> = parse_rows(rows)?; if append { self.p.r2.extend(v) } else { self.p.r2 = v } },
+         3 => { let v: Vec<(i64,i64,i64,)> = parse_rows(rows)?; if append { self.p.r3.extend(v) } else { self.p.r3 = v } },
+         4 => { let v: Vec<(i64,i64,)> = parse_rows(rows)?; if append { self.p.r4.extend(v) } else { self.p.r4 = v } },
+         5 => { let v: Vec<(i64,i64,)> = parse_rows(rows)?; if append { self.p.r5.extend(v) } else { self.p.r5 = v } },
+         6 => { let v: Vec<(i64,Option<i64>,)> = parse_rows(rows)?; if append { self.p.r6.extend(v) } else { self.p.r6 = v } },
          7 => { let v: Vec<(i64,Option<i64>,)> = parse_rows(rows)?; if append { self.p.r7.extend(v) } else { self.p.r7 = v } },
             _ => return None,
          }
@@ -172,7 +227,7 @@ pub mod h8s {
 }
 
 #[allow(unused, non_snake_case, clippy::all)]
-pub mod a0s {
+pub mod a2s {
    use ascent::*;
    use ascent::aggregators::*;
    use ascent::lattice::{Dual, set::Set};
@@ -183,7 +238,7 @@ pub mod a0s {
       relation r1(i64);
       relation r2(i64, i64);
       relation r3(i64);
-      macro m0($p0: ident) { r0(v0, $p0) if (3 < v0.clone()) }
+      macro m0($p0: ident) { r0(v0, $p0), if (0 < v0.clone()) }
       r2(v0, v1) <-- r1(v0), m0!(v1);
       r3(v0) <-- r2(v0, _);
    }
@@ -213,7 +268,7 @@ pub mod a0s {
 }
 
 #[allow(unused, non_snake_case, clippy::all)]
-pub mod e0s {
+pub mod e2s {
    use ascent::*;
    use ascent::aggregators::*;
    use ascent::lattice::{Dual, set::Set};
@@ -224,7 +279,7 @@ pub mod e0s {
       relation r1(i64);
       relation r2(i64, i64);
       relation r3(i64);
-      macro m0($p0: ident, $p1: expr) { r0(v0, $p0), if ((v0.clone() * $p1) < 5) }
+      macro m0($p0: ident, $p1: expr) { r0(v0, $p0), if ($p1 < 2) }
       r2(v0, v1) <-- r1(v0), m0!(v1, v0.clone() + 2);
       r3(v0) <-- r2(v0, _);
    }
@@ -254,48 +309,7 @@ pub mod e0s {
 }
 
 #[allow(unused, non_snake_case, clippy::all)]
-pub mod e4s {
-   use ascent::*;
-   use ascent::aggregators::*;
-   use ascent::lattice::{Dual, set::Set};
-   use crate::common::*;
-   ascent! {
-      pub struct Prog;
-      relation r0(i64, i64);
-      relation r1(i64);
-      relation r2(i64, i64);
-      relation r3(i64);
-      macro m0($p0: ident, $p1: expr) { r0(v0, $p0), if (($p1 * v0.clone()) < 7) }
-      r2(v0, v1) <-- r1(v0), m0!(v1, v0.clone() + 1);
-      r3(v0) <-- r2(v0, _);
-   }
-   pub struct Inst { p: Prog, pool: Option<ascent::rayon::ThreadPool> }
-   pub fn make(pool: Option<usize>) -> Box<dyn Driver> {
-      let pool = pool.map(|n| ascent::rayon::ThreadPoolBuilder::new().num_threads(n).build().unwrap());
-      let p = match &pool { Some(pl) => pl.install(|| Default::default()), None => Default::default() };
-      Box::new(Inst { p, pool })
-   }
-   impl Driver for Inst {
-      fn load(&mut self, rel: usize, rows: &[Sexp], append: bool) -> Option<()> {
-         match rel {
-         0 => { let v: Vec<(i64,i64,)> = parse_rows(rows)?; if append { self.p.r0.extend(v) } else { self.p.r0 = v } },
-         1 => { let v: Vec<(i64,)> = parse_rows(rows)?; if append { self.p.r1.extend(v) } else { self.p.r1 = v } },
-         2 => { let v: Vec<(i64,i64,)> = parse_rows(rows)?; if append { self.p.r2.extend(v) } else { self.p.r2 = v } },
-         3 => { let v: Vec<(i64,)> = parse_rows(rows)?; if append { self.p.r3.extend(v) } else { self.p.r3 = v } },
-            _ => return None,
-         }
-         Some(())
-      }
-      fn run(&mut self) { match &self.pool { Some(pl) => { let p = &mut self.p; pl.install(|| p.run()) }, None => self.p.run() } }
-      fn run_here(&mut self) { self.p.run() }
-      fn run_timeout(&mut self, k: usize) -> Option<bool> { let _ = k; None }
-      fn dump(&self) -> String { vec![dump_rel(0, self.p.r0.iter().map(Row::render).collect()), dump_rel(1, self.p.r1.iter().map(Row::render).collect()), dump_rel(2, self.p.r2.iter().map(Row::render).collect()), dump_rel(3, self.p.r3.iter().map(Row::render).collect())].join(" | ") }
-      fn iters(&self) -> String { format!("iters {}", self.p.scc_iters.iter().map(|x| x.to_string()).collect::<Vec<_>>().join(" ")) }
-   }
-}
-
-#[allow(unused, non_snake_case, clippy::all)]
-pub mod o3s {
+pub mod o1s {
    use ascent::*;
    use ascent::aggregators::*;
    use ascent::lattice::{Dual, set::Set};
@@ -306,9 +320,8 @@ pub mod o3s {
       relation r1(i64);
       relation r2(i64, i64);
       relation r3(i64);
-      macro m0($p0: ident) { r0($p0, ?None) }
-      macro m1($p0: ident) { r1($p0), m0!($p0) }
-      r3(v0) <-- m1!(v0);
+      macro m0($p0: ident) { r1($p0) }
+      r3(v0) <-- m0!(v0), r0(v0, ?None);
       r2(v0, v0) <-- r3(v0);
    }
    pub struct Inst { p: Prog, pool: Option<ascent::rayon::ThreadPool> }
@@ -337,5 +350,5 @@ pub mod o3s {
 }
 
 fn main() {
-   common::main_loop(&[("h0s", h0s::make as common::Factory), ("h4s", h4s::make as common::Factory), ("h8s", h8s::make as common::Factory), ("a0s", a0s::make as common::Factory), ("e0s", e0s::make as common::Factory), ("e4s", e4s::make as common::Factory), ("o3s", o3s::make as common::Factory)]);
+   common::main_loop(&[("h0s", h0s::make as common::Factory), ("h4s", h4s::make as common::Factory), ("h8s", h8s::make as common::Factory), ("h12s", h12s::make as common::Factory), ("a2s", a2s::make as common::Factory), ("e2s", e2s::make as common::Factory), ("o1s", o1s::make as common::Factory)]);
 }
